@@ -66,6 +66,63 @@ inductive Instr where
 inductive ScopeKind where | with_ | capture
   deriving Repr, DecidableEq, Inhabited
 
+/-- the name of the engine's `Instruction` variant this model instruction stands for -/
+def Instr.opName : Instr → String
+  | .emitRaw .. => "EmitRaw"
+  | .storeLocal .. => "StoreLocal"
+  | .lookup .. => "Lookup"
+  | .getAttr .. => "GetAttr"
+  | .getItem .. => "GetItem"
+  | .loadConst .. => "LoadConst"
+  | .buildMap .. => "BuildMap"
+  | .buildList .. => "BuildList"
+  | .unpackList .. => "UnpackList"
+  | .add .. => "Add"
+  | .sub .. => "Sub"
+  | .mul .. => "Mul"
+  | .intDiv .. => "IntDiv"
+  | .rem .. => "Rem"
+  | .neg .. => "Neg"
+  | .eq .. => "Eq"
+  | .ne .. => "Ne"
+  | .gt .. => "Gt"
+  | .gte .. => "Gte"
+  | .lt .. => "Lt"
+  | .lte .. => "Lte"
+  | .not .. => "Not"
+  | .stringConcat .. => "StringConcat"
+  | .isIn .. => "In"
+  | .compareAndPreserve .. => "CompareAndPreserve"
+  | .applyFilter .. => "ApplyFilter"
+  | .performTest .. => "PerformTest"
+  | .emit .. => "Emit"
+  | .pushLoop .. => "PushLoop"
+  | .pushWith .. => "PushWith"
+  | .iterate .. => "Iterate"
+  | .pushDidNotIterate .. => "PushDidNotIterate"
+  | .popFrame .. => "PopFrame"
+  | .popLoopFrame .. => "PopLoopFrame"
+  | .jump .. => "Jump"
+  | .jumpIfFalse .. => "JumpIfFalse"
+  | .jumpIfFalseOrPop .. => "JumpIfFalseOrPop"
+  | .jumpIfTrueOrPop .. => "JumpIfTrueOrPop"
+  | .beginCapture .. => "BeginCapture"
+  | .endCapture .. => "EndCapture"
+  | .dupTop .. => "DupTop"
+  | .discardTop .. => "DiscardTop"
+  | .swap .. => "Swap"
+  | .buildKwargs .. => "BuildKwargs"
+  | .callFunction .. => "CallFunction"
+  | .callObject .. => "CallObject"
+  | .isUndefined .. => "IsUndefined"
+  | .return_ .. => "Return"
+  | .enclose .. => "Enclose"
+  | .getClosure .. => "GetClosure"
+  | .buildMacro .. => "BuildMacro"
+
+/-- `MACRO_CALLER`: the macro looks up `caller` -/
+def macroCallerFlag : Nat := 2
+
 /-- `PendingBlock` -/
 inductive Pending where
   | branch (jumpInstr : Nat)
@@ -597,7 +654,7 @@ def cMacroEpilogue (name : String) (params : List String) (closure : List String
   let g := (sortNames (closure.filter (· != "caller"))).foldl (fun g n => g.add (.enclose n)) g
   let g := g.add .getClosure
   let g := g.add (.loadConst (.list (params.map Val.str)))
-  let g := g.add (.buildMacro name (jumpInstr + 1) (if closure.contains "caller" then 2 else 0))
+  let g := g.add (.buildMacro name (jumpInstr + 1) (if closure.contains "caller" then macroCallerFlag else 0))
   g.patch jumpInstr macroInstr
 
 mutual
